@@ -7,6 +7,7 @@
 //	dbt oplog <dir> <seed>   multi-document writes with document-dependent change events, no-ops, drops (C08)
 //	dbt clean <dir> <seed>   the real Transaction.Clean on crafted change logs: every configuration of the retention grid (C08)
 //	dbt reload <dir> <seed> <histories> <calls>  histories on a FileStore with close/reopen points + typed-pool fidelity scenario (C06)
+//	dbt txn   <dir> <seed> <histories> <steps>  one session with explicit transactions, a plain client and a snapshot taker, interleaved (C03)
 //	dbt alias <dir> <seed>   every call kind with nested arguments; arguments and results are overwritten afterwards (C17)
 //	dbt ttl   <dir> <seed>   TTL expiry passes (Transaction.Expire and the background loop) over typed value pools (C19)
 //	dbt index <dir> <seed>   every write path next to partial / multikey / compound indexes (C15)
@@ -17,6 +18,8 @@ import (
 	"os"
 	"path/filepath"
 	"strconv"
+
+	"github.com/256dpi/lungo"
 
 	"verif/harness/dbt"
 	"verif/harness/enc"
@@ -109,6 +112,23 @@ func main() {
 		hists++
 		flush(er)
 		er.Close()
+	case "txn":
+		nh, _ := strconv.Atoi(os.Args[4])
+		nc, _ := strconv.Atoi(os.Args[5])
+		for h := 0; h < nh; h++ {
+			store := &dbt.FlakyStore{Inner: lungo.NewMemoryStore()}
+			hists++
+			e := dbt.Open(table, trace, g, store)
+			e.Hist = h
+			dbt.TxnHistory(e, store, nc)
+			flush(e)
+			e.Close()
+		}
+		base := mk()
+		base.Close()
+		sr := dbt.SnapshotRetention(base)
+		flush(sr)
+		sr.Close()
 	case "alias":
 		e := mk()
 		dbt.AliasScenarios(e)
